@@ -358,6 +358,15 @@ def run (o : Opts) (key : Option Bytes) (kvs : List (Bytes × Bytes)) (files : L
         let (fs, out) := callbackOut o coin.version last d.blocks
         ⟨0, none, "", heights, hashes, fs, out, d.events⟩
 
+/-- `BlockHeightRange::new` (main.rs): a range with `--end` is accepted only if start < end -/
+def rejected (o : Opts) : Bool := match o.stop with | some e => decide (o.start ≥ e) | none => false
+
+/-- the program: option validation, then `run`.  A rejected range ends the process with status 1 before any callback is
+    created (no tmp file, no output) -/
+def main (o : Opts) (key : Option Bytes) (kvs : List (Bytes × Bytes)) (files : List BlkFile) : Output :=
+  if rejected o then ⟨1, none, "--start value must be lower than --end value", [], [], [], [], []⟩
+  else run o key kvs files
+
 /-- the blocks handed to the callback (what `run` folds the callback over); used by the driver to print the write program -/
 def deliveredBlocks (o : Opts) (key : Option Bytes) (kvs : List (Bytes × Bytes)) (files : List BlkFile) : List CB.EBlock :=
   match coinOf o.coin, loadIndex o kvs with
